@@ -19,15 +19,30 @@
 //! re-parses to an equal URI; this-update <= next-update; `ManifestHash::verify`
 //! is Ok exactly when the listed octets equal SHA-256(data) (aws-lc-rs
 //! directly). Rejected manifests are fine; reasons are counted.
+//!
+//! Second workload (section "names related to the object, content handed back
+//! by validation"): per case an EE certificate with chosen URIs and validity
+//! window; the file list contains the manifest's own file name, the CRL's and
+//! the issuer certificate's (every position, repeated, case variants, one-edit
+//! neighbours, other URI parts), the window lies before / around / inside /
+//! after thisUpdate..nextUpdate. Every entry point that hands out a
+//! `ManifestContent` - decode (strict / relaxed), Deref / AsRef / Borrow /
+//! Clone, re-encoding, serde transports, `validate_at` / `validate`,
+//! `SignedObject::decode_content` / `process` - is held to the same laws, with
+//! the EE certificate's own URIs among the bases; the entry point is part of
+//! the violation signature.
 
 use crate::core::{catch, hex, panic_location, Ctx, Rng, Stage, Tier};
 use crate::der;
 use crate::keys::{sha1, sha256, PoolSigner};
+use crate::serde_tok;
+use bcder::encode::Values as _;
 use bcder::Mode;
 use bytes::Bytes;
 use rpki::crypto::DigestAlgorithm;
 use rpki::repository::cert::{KeyUsage, Overclaim, ResourceCert, TbsCert};
 use rpki::repository::manifest::{Manifest, ManifestContent, ManifestHash};
+use rpki::repository::sigobj::SignedObject;
 use rpki::repository::tal::TalInfo;
 use rpki::repository::x509::{Serial, Time, Validity};
 use rpki::uri::Rsync;
@@ -554,6 +569,9 @@ struct Case {
     entries: Vec<Entry>,
     structure: Option<&'static str>,
     ber: Option<&'static str>,
+    /// set by the object workload: EE certificate window and URIs, the instant
+    /// of validation, the relation of the planted names (literal, for details)
+    object: Option<Value>,
 }
 
 fn count_class(n: usize) -> &'static str {
@@ -962,6 +980,7 @@ fn gen_case(rng: &mut Rng, stage: Stage, sha_ok: bool) -> Case {
         entries,
         structure,
         ber,
+        object: None,
     }
 }
 
@@ -1181,6 +1200,11 @@ impl Cms {
     /// RFC 6488 SignedData around `econtent`; all bytes from `crate::der`,
     /// signature from aws-lc-rs. Signed attributes are 107 octets.
     fn wrap(&self, econtent: &[u8], variant: &'static str) -> Vec<u8> {
+        self.wrap_with(&self.ee_cert, econtent, variant)
+    }
+
+    /// The same around any EE certificate that carries pool key 1.
+    fn wrap_with(&self, ee_cert: &[u8], econtent: &[u8], variant: &'static str) -> Vec<u8> {
         let ct_oid: &[u64] = if variant == "wrong-content-type" { der::OID_CT_ROA } else { der::OID_CT_MANIFEST };
         let digest = sha256(econtent);
         let attr = |oid: &[u64], value: Vec<u8>| der::seq(&[&der::oid(oid), &der::tlv(der::T_SET, &value)]);
@@ -1224,7 +1248,7 @@ impl Cms {
             &der::uint(3),
             &der::tlv(der::T_SET, &digest_alg),
             &encap,
-            &der::tlv(der::ctx(0), &self.ee_cert),
+            &der::tlv(der::ctx(0), ee_cert),
             &der::tlv(der::T_SET, &signer_info),
         ]);
         der::seq(&[&der::oid(der::OID_SIGNED_DATA), &der::tlv(der::ctx(0), &signed_data)])
@@ -1275,6 +1299,7 @@ fn case_detail(c: &Case, econtent: &[u8], path: &str) -> Value {
         "next_update": c.next_update.text(),
         "ber": c.ber,
         "structure": c.structure,
+        "object": c.object,
         "econtent_hex": if econtent.len() <= 3000 { hex(econtent) } else { format!("{}… ({} octets)", hex(&econtent[..600]), econtent.len()) },
     })
 }
@@ -1283,8 +1308,45 @@ struct Counters {
     evals: u64,
 }
 
+/// Which entry point handed the content over; part of the violation signature
+/// for everything that is not the plain decode result (whose signatures stay as
+/// they always were).
+fn path_suffix(path: &str) -> &'static str {
+    if path.contains("validated") {
+        ":content-returned-by-validation"
+    } else if path.contains("serde") {
+        ":after-serde-round-trip"
+    } else if path.contains("recaptured") || path.contains("reencoded") {
+        ":after-re-encoding"
+    } else if path.contains("sigobj") {
+        ":via-signed-object"
+    } else if path.contains("view") {
+        ":through-a-view-or-clone"
+    } else {
+        ""
+    }
+}
+
 /// All checks the statement makes about a decoded manifest.
 fn check_content(ctx: &mut Ctx, k: &mut Counters, content: &ManifestContent, c: &Case, econtent: &[u8], path: &str, verify: bool) {
+    check_content_ext(ctx, k, content, c, econtent, path, verify, &[], BASES.len())
+}
+
+/// The same with additional base URIs (tried first, all of them) and a bound on
+/// the number of standard bases.
+#[allow(clippy::too_many_arguments)]
+fn check_content_ext(
+    ctx: &mut Ctx,
+    k: &mut Counters,
+    content: &ManifestContent,
+    c: &Case,
+    econtent: &[u8],
+    path: &str,
+    verify: bool,
+    extra_bases: &[(String, &'static str)],
+    max_bases: usize,
+) {
+    let sfx = path_suffix(path);
     let limit = c.entries.len() + content.len() + 8;
     // --- names, len, entries
     let listed = ctx.no_panic("iter", || case_detail(c, econtent, path), || {
@@ -1294,7 +1356,7 @@ fn check_content(ctx: &mut Ctx, k: &mut Counters, content: &ManifestContent, c: 
     k.evals += 1;
     if listed.len() != content.len() {
         ctx.violation(
-            "C14:len-differs-from-iter-count",
+            &format!("C14:len-differs-from-iter-count{sfx}"),
             &format!("len() = {} but iter() yields {}{} entries", content.len(), if listed.len() == limit { "at least " } else { "" }, listed.len()),
             case_detail(c, econtent, path),
         );
@@ -1317,7 +1379,7 @@ fn check_content(ctx: &mut Ctx, k: &mut Counters, content: &ManifestContent, c: 
                 d["accepted_name"] = json!(String::from_utf8_lossy(name));
                 d["index"] = json!(i);
                 ctx.violation(
-                    &format!("C14:name-accepted:{why}"),
+                    &format!("C14:name-accepted:{why}{sfx}"),
                     &format!("decoded manifest lists the name {:?} which is not <stem>.<3 letters> ({why})", show(name)),
                     d,
                 );
@@ -1337,12 +1399,12 @@ fn check_content(ctx: &mut Ctx, k: &mut Counters, content: &ManifestContent, c: 
             let idx = listed.iter().zip(c.entries.iter()).position(|((n, h), e)| n.as_ref() != e.name.as_slice() || h.as_ref() != e.hash.as_slice());
             let mut d = case_detail(c, econtent, path);
             d["index"] = json!(idx);
-            ctx.violation("C14:iter-entry-differs-from-encoded", "iter() yields a name or hash different from the encoded entry", d);
+            ctx.violation(&format!("C14:iter-entry-differs-from-encoded{sfx}"), "iter() yields a name or hash different from the encoded entry", d);
         } else if !same {
             let mut d = case_detail(c, econtent, path);
             d["encoded_entries"] = json!(c.entries.len());
             d["yielded"] = json!(listed.len());
-            ctx.violation("C14:iter-count-differs-from-encoded", "iter() yields a different number of entries than were encoded", d);
+            ctx.violation(&format!("C14:iter-count-differs-from-encoded{sfx}"), "iter() yields a different number of entries than were encoded", d);
         }
     }
     // --- times
@@ -1351,9 +1413,20 @@ fn check_content(ctx: &mut Ctx, k: &mut Counters, content: &ManifestContent, c: 
     let enc_order_ok = c.this_update.ts <= c.next_update.ts;
     if !lib_order_ok || (!enc_order_ok && c.this_update.defect.is_none() && c.next_update.defect.is_none()) {
         ctx.violation(
-            "C14:this-update-after-next-update",
-            &format!("decoded manifest has thisUpdate {} after nextUpdate {}", c.this_update.text(), c.next_update.text()),
-            case_detail(c, econtent, path),
+            &format!("C14:this-update-after-next-update{sfx}"),
+            &format!(
+                "content reports this_update {} and next_update {} (encoded thisUpdate {}, nextUpdate {})",
+                content.this_update().to_rfc3339(),
+                content.next_update().to_rfc3339(),
+                c.this_update.text(),
+                c.next_update.text()
+            ),
+            {
+                let mut d = case_detail(c, econtent, path);
+                d["reported_this_update"] = json!(content.this_update().to_rfc3339());
+                d["reported_next_update"] = json!(content.next_update().to_rfc3339());
+                d
+            },
         );
     }
     if c.this_update.defect.is_none() && c.next_update.defect.is_none() {
@@ -1362,10 +1435,19 @@ fn check_content(ctx: &mut Ctx, k: &mut Counters, content: &ManifestContent, c: 
         }
     }
     // --- URIs
-    let nb = if listed.len() > 100 { 2 } else { BASES.len() };
+    let nb = if listed.len() > 100 { 2 } else { max_bases.min(BASES.len()) };
     let first = (econtent.len() + listed.len()) % BASES.len();
+    let n_extra = if listed.len() > 100 { extra_bases.len().min(2) } else { extra_bases.len() };
+    let rot = if extra_bases.is_empty() { 0 } else { econtent.len() % extra_bases.len() };
+    let mut bases: Vec<(&str, &'static str)> = Vec::with_capacity(nb + n_extra);
+    for j in 0..n_extra {
+        let (t, s) = &extra_bases[(rot + j) % extra_bases.len()];
+        bases.push((t.as_str(), *s));
+    }
     for bi in 0..nb {
-        let (base_text, base_shape) = BASES[(first + bi) % BASES.len()];
+        bases.push(BASES[(first + bi) % BASES.len()]);
+    }
+    for (bi, (base_text, base_shape)) in bases.into_iter().enumerate() {
         let base = match Rsync::from_str(base_text) {
             Ok(b) => b,
             Err(_) => {
@@ -1386,13 +1468,20 @@ fn check_content(ctx: &mut Ctx, k: &mut Counters, content: &ManifestContent, c: 
         k.evals += 1;
         if uris.len() != content.len() {
             ctx.violation(
-                "C14:iter-uris-count-differs-from-len",
-                &format!("iter_uris yields {} items, len() = {}", uris.len(), content.len()),
-                case_detail(c, econtent, path),
+                &format!("C14:iter-uris-count-differs-from-len{sfx}"),
+                &format!("iter_uris({base_text}) yields {} items, len() = {}, iter() yields {}", uris.len(), content.len(), listed.len()),
+                {
+                    let mut d = case_detail(c, econtent, path);
+                    d["base"] = json!(base_text);
+                    d
+                },
             );
         }
         let dir_uri = Rsync::from_slice(&dir).ok();
         let auth_end = 8 + dir[8..].iter().position(|c| *c == b'/').unwrap_or(0);
+        // item i of iter_uris belongs to item i of iter only when both have the
+        // same number of items (a difference has been reported just above)
+        let same_count = uris.len() == listed.len();
         for (i, (uri, mh)) in uris.iter().enumerate() {
             k.evals += 1;
             let got = uri.as_slice();
@@ -1403,7 +1492,7 @@ fn check_content(ctx: &mut Ctx, k: &mut Counters, content: &ManifestContent, c: 
                 d["uri"] = json!(String::from_utf8_lossy(got));
                 d["name"] = json!(String::from_utf8_lossy(name));
                 d["index"] = json!(i);
-                ctx.violation(sig, &format!("{what}: base {base_text}, name {:?}, uri {:?}", show(name), show(got)), d);
+                ctx.violation(&format!("{sig}{sfx}"), &format!("{what}: base {base_text}, name {:?}, uri {:?}", show(name), show(got)), d);
             };
             // directly inside the directory, judged on the bytes alone
             // (scheme and authority compare case-insensitively, the path exactly)
@@ -1415,7 +1504,7 @@ fn check_content(ctx: &mut Ctx, k: &mut Counters, content: &ManifestContent, c: 
                 fail(ctx, "C14:uri-outside-base-directory", "iter_uris yielded a URI that is not directly inside the base directory");
                 continue;
             }
-            if &got[dir.len()..] != name {
+            if same_count && &got[dir.len()..] != name {
                 fail(ctx, "C14:uri-is-not-base-plus-name", "iter_uris yielded a URI whose last segment is not the listed name");
             }
             match (uri.parent(), &dir_uri) {
@@ -1426,14 +1515,18 @@ fn check_content(ctx: &mut Ctx, k: &mut Counters, content: &ManifestContent, c: 
                 Ok(again) if again == *uri && again.as_slice() == got => {}
                 _ => fail(ctx, "C14:uri-does-not-reparse", "a yielded URI does not re-parse to an equal URI"),
             }
-            if let Some((_, h)) = listed.get(i) {
+            if let Some((_, h)) = listed.get(i).filter(|_| same_count) {
                 if mh.as_slice() != h.as_ref() {
                     fail(ctx, "C14:iter-uris-hash-differs", "iter_uris yields a hash different from iter()");
                 }
             }
             // --- hash verification (first base only)
-            if verify && bi == 0 && regular {
-                if let Some(e) = c.entries.get(i) {
+            // (only for an entry that is the encoded entry of the same index: when
+            // the list differs from what was encoded that has been reported above,
+            // and the relation between hash and data is not known any more)
+            if verify && bi == 0 && regular && same_count {
+                let aligned = |e: &Entry| listed.get(i).map(|(n, h)| n.as_ref() == e.name.as_slice() && h.as_ref() == e.hash.as_slice()).unwrap_or(false);
+                if let Some(e) = c.entries.get(i).filter(|e| aligned(e)) {
                     if let Some(data) = &e.data {
                         k.evals += 1;
                         check_verify(ctx, mh, &e.hash, e.unused, data, e.rel, "manifest-entry");
@@ -1482,6 +1575,855 @@ fn check_verify(ctx: &mut Ctx, mh: &ManifestHash, listed: &[u8], unused: u8, dat
     }
 }
 
+//------------ names related to the object, content handed back by validation --
+//
+// Second workload (native and ASan stages). The manifest is tied to its own
+// signed object: the EE certificate is issued per case with chosen URIs (SIA
+// signedObject, CRL distribution point, AIA caIssuers) and a chosen validity
+// window, the file list contains names taken from those URIs, and the window is
+// placed before / around / inside / after thisUpdate..nextUpdate. Every entry
+// point that hands out a `ManifestContent` is then held to the same laws.
+
+const DAY: i64 = 86_400;
+const YEAR: i64 = 366 * DAY;
+/// 2024-01-01 and 2124-01-01: the EE window of the cases that go through the
+/// entry points reading the clock themselves (`validate`, `process`).
+const WALL_NB: i64 = 1_704_067_200;
+const WALL_NA: i64 = 4_859_740_800;
+
+const REL_KINDS: &[&str] = &[
+    "none",
+    "self",
+    "self",
+    "self-only",
+    "self-twice",
+    "self-everywhere",
+    "self-case-variant",
+    "self+case-variant",
+    "near-self",
+    "crl",
+    "crl-case-variant",
+    "issuer",
+    "self+crl",
+    "self+crl+issuer",
+    "uri-directory-segment",
+    "uri-module",
+    "uri-authority",
+];
+
+const WINDOW_KINDS: &[&str] = &[
+    "covering",
+    "equal",
+    "inside",
+    "before",
+    "before-by-1s",
+    "ends-at-this-update",
+    "overlaps-start",
+    "overlaps-end",
+    "starts-at-next-update",
+    "after-by-1s",
+    "after",
+    "single-instant-at-this-update",
+    "wall-clock:manifest-inside-ee",
+    "wall-clock:manifest-before-ee",
+    "wall-clock:manifest-after-ee",
+    "wall-clock:manifest-overlaps-ee-start",
+    "wall-clock:manifest-overlaps-ee-end",
+];
+
+struct ObjSpec {
+    rel: &'static str,
+    pos: &'static str,
+    window: &'static str,
+    mft_uri: String,
+    crl_uri: String,
+    aia_uri: String,
+    nb: i64,
+    na: i64,
+    /// instants inside the EE window at which validation is tried
+    nows: Vec<(i64, &'static str)>,
+    wall_clock: bool,
+    /// names planted into the file list (literal, for the detail)
+    planted: Vec<String>,
+}
+
+fn time_of(ts: i64) -> Time {
+    Time::new(chrono::DateTime::<chrono::Utc>::from_timestamp(ts, 0).expect("timestamp in range"))
+}
+
+fn iso(ts: i64) -> String {
+    let (y, mo, d, h, mi, s) = civil(ts);
+    format!("{y:04}-{mo:02}-{d:02}T{h:02}:{mi:02}:{s:02}Z")
+}
+
+/// A valid name of moderate length for use as the last segment of a URI.
+fn gen_segment(rng: &mut Rng, usual_ext: &[u8]) -> Vec<u8> {
+    let shape: &'static str = *rng.pick(&[
+        "valid:plain",
+        "valid:plain",
+        "valid:mixed-case-dash-underscore",
+        "valid:single-char-stem",
+        "valid:dashes-only-stem",
+        "valid:digits-only-stem",
+        "valid:upper-ext",
+        "valid:hash-like-stem",
+        "valid:long-stem",
+    ]);
+    let mut n = gen_valid(rng, shape, true);
+    if rng.chance(3, 4) {
+        let l = n.len();
+        n[l - 3..].copy_from_slice(usual_ext);
+        if rng.chance(1, 5) {
+            for b in n[l - 3..].iter_mut() {
+                if rng.bool() {
+                    *b = b.to_ascii_uppercase();
+                }
+            }
+        }
+    }
+    n
+}
+
+/// The same name with the case of letters changed (at least one).
+fn case_variant(rng: &mut Rng, name: &[u8]) -> Vec<u8> {
+    let mut v = name.to_vec();
+    let flip = |b: &mut u8| {
+        if b.is_ascii_lowercase() {
+            *b = b.to_ascii_uppercase()
+        } else if b.is_ascii_uppercase() {
+            *b = b.to_ascii_lowercase()
+        }
+    };
+    match rng.below(3) {
+        0 => v.iter_mut().for_each(flip),
+        1 => {
+            // extension only
+            let l = v.len();
+            v[l - 3..].iter_mut().for_each(flip)
+        }
+        _ => {
+            // one letter (the extension always has letters)
+            let idx: Vec<usize> = (0..v.len()).filter(|i| v[*i].is_ascii_alphabetic()).collect();
+            let i = *rng.pick(&idx);
+            flip(&mut v[i]);
+        }
+    }
+    v
+}
+
+/// A valid name one edit away from `name`.
+fn near_variant(rng: &mut Rng, name: &[u8]) -> Vec<u8> {
+    let mut v = name.to_vec();
+    let stem = v.len() - 4;
+    match rng.below(4) {
+        0 => v.insert(0, *rng.pick(STEM_ALL)),
+        1 if stem > 1 => {
+            v.remove(0);
+        }
+        2 => v.insert(stem, *rng.pick(STEM_ALL)),
+        _ => {
+            let l = v.len();
+            let p = l - 1 - rng.usize_below(3);
+            let mut nb = *rng.pick(LETTERS);
+            while nb == v[p] {
+                nb = *rng.pick(LETTERS);
+            }
+            v[p] = nb;
+        }
+    }
+    v
+}
+
+fn text(b: &[u8]) -> String {
+    String::from_utf8_lossy(b).to_string()
+}
+
+/// Builds the case and the description of its signed object.
+fn gen_object_case(rng: &mut Rng, stage: Stage) -> (Case, ObjSpec) {
+    // a manifest that the statement's grammar accepts ...
+    let mut c = loop {
+        let c = gen_case(rng, stage, true);
+        if c.plan == "all-valid" && c.entries.len() <= 600 {
+            break c;
+        }
+    };
+    c.plan = "object";
+    c.version = if rng.chance(1, 20) { "explicit-0" } else { "absent" };
+    // ... now and then with one hostile name, so that refusals stay in view
+    let hostile = rng.chance(1, 12);
+
+    // --- the URIs of the EE certificate and the names related to them
+    let rel: &'static str = *rng.pick(REL_KINDS);
+    let mft_seg = gen_segment(rng, b"mft");
+    let crl_seg = gen_segment(rng, b"crl");
+    let aia_seg = gen_segment(rng, b"cer");
+    let uri_ext: &[u8] = *rng.pick(KNOWN_EXT);
+    let uri_seg = gen_segment(rng, uri_ext);
+    let host: &str = if rel == "uri-authority" {
+        *rng.pick(&["example.net", "rpki.net", "a-1.org", "EXAMPLE.NET", "h_0.com", "Rpki.Org"])
+    } else {
+        *rng.pick(&["example.net", "rpki.example.org", "h"])
+    };
+    let dir = match rel {
+        "uri-directory-segment" => format!("rsync://{host}/repo/{}/", text(&uri_seg)),
+        "uri-module" => format!("rsync://{host}/{}/ca/", text(&uri_seg)),
+        _ => (*rng.pick(&["rsync://{h}/repo/ca/", "rsync://{h}/m/", "rsync://{h}/Mod-1/a/b.c/d_e/"])).replace("{h}", host),
+    };
+    let mft_uri = format!("{dir}{}", text(&mft_seg));
+    let crl_uri = if rng.chance(1, 4) { format!("rsync://{host}/other/{}", text(&crl_seg)) } else { format!("{dir}{}", text(&crl_seg)) };
+    let aia_uri = format!("rsync://{host}/repo/{}", text(&aia_seg));
+
+    let mut planted: Vec<(Vec<u8>, &'static str)> = Vec::new();
+    match rel {
+        "self" | "self-only" => planted.push((mft_seg.clone(), "related:self")),
+        "self-twice" => {
+            planted.push((mft_seg.clone(), "related:self"));
+            planted.push((mft_seg.clone(), "related:self"));
+            if rng.chance(1, 3) {
+                planted.push((mft_seg.clone(), "related:self"));
+            }
+        }
+        "self-everywhere" => {
+            let n = c.entries.len().clamp(2, 40);
+            for _ in 0..n {
+                planted.push((mft_seg.clone(), "related:self"));
+            }
+        }
+        "self-case-variant" => planted.push((case_variant(rng, &mft_seg), "related:self-case-variant")),
+        "self+case-variant" => {
+            planted.push((mft_seg.clone(), "related:self"));
+            planted.push((case_variant(rng, &mft_seg), "related:self-case-variant"));
+            if rng.bool() {
+                planted.swap(0, 1);
+            }
+        }
+        "near-self" => planted.push((near_variant(rng, &mft_seg), "related:near-self")),
+        "crl" => planted.push((crl_seg.clone(), "related:crl")),
+        "crl-case-variant" => planted.push((case_variant(rng, &crl_seg), "related:crl-case-variant")),
+        "issuer" => planted.push((aia_seg.clone(), "related:issuer")),
+        "self+crl" => {
+            planted.push((mft_seg.clone(), "related:self"));
+            planted.push((crl_seg.clone(), "related:crl"));
+            if rng.bool() {
+                planted.swap(0, 1);
+            }
+        }
+        "self+crl+issuer" => {
+            planted.push((mft_seg.clone(), "related:self"));
+            planted.push((crl_seg.clone(), "related:crl"));
+            planted.push((aia_seg.clone(), "related:issuer"));
+            rng.shuffle(&mut planted);
+        }
+        "uri-directory-segment" | "uri-module" => planted.push((uri_seg.clone(), "related:uri-segment")),
+        "uri-authority" => planted.push((host.as_bytes().to_vec(), "related:uri-authority")),
+        _ => {}
+    }
+    if rel == "self-only" || rel == "self-everywhere" {
+        c.entries.clear();
+    }
+    // --- positions
+    let mut pos: &'static str = "-";
+    for (j, (name, shape)) in planted.iter().enumerate() {
+        let with_data = rng.chance(1, 3);
+        let e = mk_entry(rng, name.clone(), shape, with_data, false);
+        if c.entries.is_empty() {
+            c.entries.push(e);
+            if j == 0 {
+                pos = "only";
+            }
+            continue;
+        }
+        let (at, label): (usize, &'static str) = if j == 0 {
+            match rng.below(3) {
+                0 => (0, "first"),
+                1 => (c.entries.len(), "last"),
+                _ => (rng.usize_below(c.entries.len() + 1), "middle"),
+            }
+        } else {
+            match rng.below(4) {
+                0 => (0, ""),
+                1 => (c.entries.len(), ""),
+                _ => (rng.usize_below(c.entries.len() + 1), ""),
+            }
+        };
+        c.entries.insert(at, e);
+        if j == 0 {
+            pos = label;
+        }
+    }
+    if planted.len() > 1 && pos != "only" {
+        pos = "several";
+    }
+    if let Some((_, shape)) = planted.first() {
+        c.focus = shape;
+        c.focus_pos = pos;
+    } else {
+        c.focus_pos = "-";
+    }
+    if hostile {
+        let shape: &'static str = *rng.pick(HOSTILE_SHAPES);
+        let name = gen_hostile(rng, shape, true);
+        let e = mk_entry(rng, name, shape, false, false);
+        let at = rng.usize_below(c.entries.len() + 1);
+        c.entries.insert(at, e);
+    }
+
+    // --- the manifest's interval and the EE certificate's window
+    let window: &'static str = *rng.pick(WINDOW_KINDS);
+    let wall_clock = window.starts_with("wall-clock");
+    let span = *rng.pick(&[0i64, 1, 2, 3600, DAY, 7 * DAY, YEAR]);
+    let d = *rng.pick(&[1i64, 60, DAY, 30 * DAY, YEAR]);
+    let w = *rng.pick(&[0i64, 1, 3600, DAY, YEAR]);
+    let (t, n, nb, na): (i64, i64, i64, i64) = if wall_clock {
+        let (t, n) = match window {
+            "wall-clock:manifest-inside-ee" => {
+                let t = WALL_NB + 1 + rng.below(20 * YEAR as u64) as i64;
+                (t, t + span)
+            }
+            "wall-clock:manifest-before-ee" => (WALL_NB - d - span, WALL_NB - d),
+            "wall-clock:manifest-after-ee" => (WALL_NA + d, WALL_NA + d + span),
+            "wall-clock:manifest-overlaps-ee-start" => (WALL_NB - d, WALL_NB + d),
+            _ => (WALL_NA - d, WALL_NA + d),
+        };
+        (t, n, WALL_NB, WALL_NA)
+    } else {
+        let t = gen_ts(rng).clamp(TS_MIN + 4 * YEAR, TS_MAX - 4 * YEAR);
+        let n = t + span;
+        let (nb, na) = match window {
+            "covering" => (t - d, n + d),
+            "equal" => (t, n),
+            "inside" if n - t >= 2 => (t + 1, n - 1),
+            "inside" => (t, n),
+            "before" => (t - 1 - d - w, t - 1 - d),
+            "before-by-1s" => (t - 1 - w, t - 1),
+            "ends-at-this-update" => (t - w, t),
+            "overlaps-start" => (t - w, t + (n - t) / 2),
+            "overlaps-end" => (t + (n - t + 1) / 2, n + w),
+            "starts-at-next-update" => (n, n + w),
+            "after-by-1s" => (n + 1, n + 1 + w),
+            "after" => (n + 1 + d, n + 1 + d + w),
+            _ => (t, t), // single-instant-at-this-update
+        };
+        (t, n, nb, na)
+    };
+    let utc = |rng: &mut Rng, ts: i64| (1950..=2049).contains(&civil(ts).0) && rng.chance(1, 6);
+    c.this_update = TimeSpec { ts: t, utc: utc(rng, t), defect: None };
+    c.next_update = TimeSpec { ts: n, utc: utc(rng, n), defect: None };
+    c.time_order = if t == n { "equal" } else { "next-later" };
+    let mut nows: Vec<(i64, &'static str)> = vec![(nb, "at-not-before"), (nb + (na - nb) / 2, "mid-window"), (na, "at-not-after")];
+    nows.dedup_by_key(|p| p.0);
+
+    let spec = ObjSpec {
+        rel,
+        pos,
+        window,
+        mft_uri,
+        crl_uri,
+        aia_uri,
+        nb,
+        na,
+        nows,
+        wall_clock,
+        planted: planted.iter().map(|p| text(&p.0)).collect(),
+    };
+    c.object = Some(json!({
+        "relation": rel,
+        "planted_names": spec.planted,
+        "position": pos,
+        "ee_signed_object_uri": spec.mft_uri,
+        "ee_crl_uri": spec.crl_uri,
+        "ee_ca_issuer_uri": spec.aia_uri,
+        "ee_window": window,
+        "ee_not_before": iso(nb),
+        "ee_not_after": iso(na),
+        "manifest_this_update": iso(t),
+        "manifest_next_update": iso(n),
+    }));
+    (c, spec)
+}
+
+impl Cms {
+    /// An EE certificate for pool key 1 under pool key 0 with the given window
+    /// and URIs (library builder; it is not what is being judged).
+    fn issue_ee(&self, serial: u64, spec: &ObjSpec) -> Result<Vec<u8>, String> {
+        let mft = Rsync::from_str(&spec.mft_uri).map_err(|e| format!("signedObject URI {}: {e}", spec.mft_uri))?;
+        let crl = Rsync::from_str(&spec.crl_uri).map_err(|e| format!("CRL URI {}: {e}", spec.crl_uri))?;
+        let aia = Rsync::from_str(&spec.aia_uri).map_err(|e| format!("caIssuers URI {}: {e}", spec.aia_uri))?;
+        let issuer = self.pool.info(0);
+        let ee = self.pool.info(1);
+        let validity = Validity::new(time_of(spec.nb), time_of(spec.na));
+        let r = catch(|| {
+            let mut tbs = TbsCert::new(Serial::from(serial), issuer.to_subject_name(), validity, None, ee.clone(), KeyUsage::Ee, Overclaim::Refuse);
+            tbs.set_authority_key_identifier(Some(issuer.key_identifier()));
+            tbs.set_crl_uri(Some(crl));
+            tbs.set_ca_issuer(Some(aia));
+            tbs.set_signed_object(Some(mft));
+            tbs.set_v4_resources_inherit();
+            tbs.set_v6_resources_inherit();
+            tbs.set_as_resources_inherit();
+            tbs.into_cert(&self.pool, &0usize).map(|c| c.to_captured().into_bytes().to_vec()).map_err(|e| e.to_string())
+        });
+        match r {
+            Ok(r) => r,
+            Err(p) => Err(format!("panic: {p}")),
+        }
+    }
+}
+
+/// The fields of a content as its accessors report them.
+struct Snap {
+    number: [u8; 20],
+    this_update: Time,
+    next_update: Time,
+    alg: DigestAlgorithm,
+    len: usize,
+    pairs: Vec<(Bytes, Bytes)>,
+}
+
+fn snap(content: &ManifestContent, limit: usize) -> Option<Snap> {
+    catch(|| Snap {
+        number: content.manifest_number().into_array(),
+        this_update: content.this_update(),
+        next_update: content.next_update(),
+        alg: content.file_hash_alg(),
+        len: content.len(),
+        pairs: content.iter().take(limit).map(|e| e.into_pair()).collect(),
+    })
+    .ok()
+}
+
+/// Field-by-field difference of two contents; observations, the laws are
+/// applied to each content on its own.
+fn diff_fields(a: &Snap, b: &Snap) -> Vec<&'static str> {
+    let mut v = Vec::new();
+    if a.number != b.number {
+        v.push("manifest_number");
+    }
+    if a.this_update != b.this_update {
+        v.push("this_update");
+    }
+    if a.next_update != b.next_update {
+        v.push("next_update");
+    }
+    if a.alg != b.alg {
+        v.push("file_hash_alg");
+    }
+    if a.len != b.len {
+        v.push("len");
+    }
+    if a.pairs.len() != b.pairs.len() {
+        v.push("entry_count");
+    } else {
+        if a.pairs.iter().zip(b.pairs.iter()).any(|(x, y)| x.0 != y.0) {
+            v.push("names");
+        }
+        if a.pairs.iter().zip(b.pairs.iter()).any(|(x, y)| x.1 != y.1) {
+            v.push("hashes");
+        }
+    }
+    v
+}
+
+/// The laws that need no base URI, for the cheap views of a content.
+fn check_light(ctx: &mut Ctx, k: &mut Counters, content: &ManifestContent, c: &Case, econtent: &[u8], path: &str) {
+    let sfx = path_suffix(path);
+    let limit = c.entries.len() + content.len() + 8;
+    let Some(s) = ctx.no_panic("iter", || case_detail(c, econtent, path), || snap(content, limit)).flatten() else { return };
+    k.evals += 3;
+    if s.pairs.len() != s.len {
+        ctx.violation(
+            &format!("C14:len-differs-from-iter-count{sfx}"),
+            &format!("len() = {} but iter() yields {} entries", s.len, s.pairs.len()),
+            case_detail(c, econtent, path),
+        );
+    }
+    if s.this_update > s.next_update {
+        let mut d = case_detail(c, econtent, path);
+        d["reported_this_update"] = json!(s.this_update.to_rfc3339());
+        d["reported_next_update"] = json!(s.next_update.to_rfc3339());
+        ctx.violation(
+            &format!("C14:this-update-after-next-update{sfx}"),
+            &format!("content reports this_update {} and next_update {}", s.this_update.to_rfc3339(), s.next_update.to_rfc3339()),
+            d,
+        );
+    }
+    for (i, (name, _)) in s.pairs.iter().enumerate() {
+        if let NameVerdict::Bad(why) = judge_name(name) {
+            let mut d = case_detail(c, econtent, path);
+            d["accepted_name_hex"] = json!(hex(name));
+            d["index"] = json!(i);
+            ctx.violation(&format!("C14:name-accepted:{why}{sfx}"), &format!("content lists the name {:?} which is not <stem>.<3 letters> ({why})", show(name)), d);
+        }
+    }
+    let same = s.pairs.len() == c.entries.len() && s.pairs.iter().zip(c.entries.iter()).all(|((n, h), e)| n.as_ref() == e.name.as_slice() && h.as_ref() == e.hash.as_slice());
+    if !same {
+        let mut d = case_detail(c, econtent, path);
+        d["encoded_entries"] = json!(c.entries.len());
+        d["yielded"] = json!(s.pairs.len());
+        let sig = if s.pairs.len() == c.entries.len() { "C14:iter-entry-differs-from-encoded" } else { "C14:iter-count-differs-from-encoded" };
+        ctx.violation(&format!("{sig}{sfx}"), "iter() does not yield the entries that were encoded", d);
+    }
+}
+
+struct ObjCounters {
+    cases: u64,
+    decoded: u64,
+    validated: u64,
+    validated_wall_clock: u64,
+    serde_round_trips: u64,
+}
+
+#[allow(clippy::too_many_arguments)]
+fn after_validation(
+    ctx: &mut Ctx,
+    k: &mut Counters,
+    oc: &mut ObjCounters,
+    c: &Case,
+    spec: &ObjSpec,
+    econtent: &[u8],
+    extra: &[(String, &'static str)],
+    before: &Snap,
+    returned: &ManifestContent,
+    path: &str,
+    now_label: &str,
+    now_text: &str,
+) {
+    oc.validated += 1;
+    ctx.obs(&format!("{path}:handed-back"), 1);
+    // the detail names the instant of validation
+    let mut c2 = c.clone();
+    if let Some(o) = c2.object.as_mut() {
+        o["validated_at"] = json!(now_text);
+        o["validated_at_position"] = json!(now_label);
+    }
+    check_content_ext(ctx, k, returned, &c2, econtent, path, true, extra, 2);
+    let limit = c.entries.len() + returned.len() + 8;
+    if let Some(after) = snap(returned, limit) {
+        k.evals += 1;
+        let diffs = diff_fields(before, &after);
+        if diffs.is_empty() {
+            ctx.obs("object:returned-content-equals-decoded-content", 1);
+        }
+        for f in &diffs {
+            ctx.obs(&format!("object:returned-content-differs-from-decoded-content:{f}"), 1);
+        }
+        let order = if after.this_update <= after.next_update { "ordered" } else { "this-after-next" };
+        ctx.sig(&format!("obj-validated path={path} window={} now={now_label} rel={} n={} returned={order} same-as-decoded={}", spec.window, spec.rel, count_class(c.entries.len()), diffs.is_empty()));
+        let covered = spec.nb <= c.this_update.ts && c.next_update.ts <= spec.na;
+        // (one sample per case, and of the layouts in which the window does not cover the interval)
+        let first_of_case = now_label == "wall-clock" || (now_label == "at-not-before" && path.ends_with("strict"));
+        if !covered && first_of_case {
+            ctx.sample("object:returned-by-validation", || {
+                json!({
+                    "path": path,
+                    "ee_window": spec.window,
+                    "ee_not_before": iso(spec.nb),
+                    "ee_not_after": iso(spec.na),
+                    "validated_at": now_text,
+                    "encoded_this_update": c.this_update.text(),
+                    "encoded_next_update": c.next_update.text(),
+                    "returned_this_update": after.this_update.to_rfc3339(),
+                    "returned_next_update": after.next_update.to_rfc3339(),
+                    "returned_len": after.len,
+                    "returned_entries": after.pairs.len(),
+                    "fields_differing_from_content()": diffs,
+                })
+            });
+        }
+    }
+}
+
+/// One object case through every entry point.
+fn run_object_case(ctx: &mut Ctx, k: &mut Counters, oc: &mut ObjCounters, cms: &Cms, rng: &mut Rng, index: u64) {
+    let stage = ctx.stage;
+    let (c, spec) = gen_object_case(rng, stage);
+    let econtent = encode_case(&c);
+    let names = names_verdict(&c);
+    let other = other_defect(&c);
+    let model_valid = !matches!(names, NameVerdict::Bad(_)) && other.is_none();
+    oc.cases += 1;
+    ctx.obs("object:cases", 1);
+    ctx.obs(&format!("object:relation:{}", spec.rel), 1);
+    ctx.obs(&format!("object:ee-window:{}", spec.window), 1);
+    ctx.obs_max("object:entries", c.entries.len() as u64);
+    if stage != Stage::Native && index % 16 == 0 {
+        ctx.breadcrumb(&format!("object case {index}: rel={} window={} entries={} econtent={}", spec.rel, spec.window, c.entries.len(), hex(&econtent[..econtent.len().min(2000)])));
+    }
+    let n_class = count_class(c.entries.len());
+    let extra: Vec<(String, &'static str)> = {
+        let mut v = Vec::new();
+        let dir = spec.mft_uri[..spec.mft_uri.rfind('/').map(|p| p + 1).unwrap_or(spec.mft_uri.len())].to_string();
+        v.push((dir, "ee-signed-object-directory"));
+        v.push((spec.mft_uri.clone(), "ee-signed-object-uri"));
+        v.push((spec.crl_uri.clone(), "ee-crl-uri"));
+        v.push((spec.aia_uri.clone(), "ee-ca-issuer-uri"));
+        v
+    };
+
+    // ---- the content on its own
+    k.evals += 1;
+    match decode_content(Mode::Der, &econtent, index % 2 == 0) {
+        Decoded::Ok(content) => {
+            ctx.obs("object:content-der:accepted", 1);
+            check_content_ext(ctx, k, &content, &c, &econtent, "object:content-der", true, &extra, 1);
+        }
+        Decoded::Rejected(e) => {
+            ctx.obs("object:content-der:rejected", 1);
+            if model_valid {
+                ctx.obs("object:model-valid-but-rejected", 1);
+                ctx.sample("observation:object-valid-but-rejected", || json!({"path": "object:content-der", "library_error": error_key(&e), "object": c.object}));
+            }
+        }
+        Decoded::Panicked(_) => ctx.obs("decode_panicked", 1),
+    }
+
+    // ---- the signed object
+    let ee_cert = match cms.issue_ee(1000 + index, &spec) {
+        Ok(b) => b,
+        Err(e) => {
+            ctx.obs("object:ee-certificate-not-issued", 1);
+            let note = format!("C14: an EE certificate for the object workload could not be issued ({})", error_key(&e));
+            if !ctx.notes.contains(&note) {
+                ctx.notes.push(note);
+            }
+            return;
+        }
+    };
+    let variant: &'static str = if rng.chance(1, 8) { *rng.pick(&["digest-alg-null", "sha256-with-rsa", "segmented-econtent"]) } else { "plain" };
+    let signed = cms.wrap_with(&ee_cert, &econtent, variant);
+    let mut c = c;
+    if let Some(o) = c.object.as_mut() {
+        o["cms_variant"] = json!(variant);
+        o["signed_object_hex"] = json!(if signed.len() <= 6000 { hex(&signed) } else { format!("{}… ({} octets)", hex(&signed[..1200]), signed.len()) });
+    }
+    let c = c;
+
+    for strict in [true, false] {
+        let path = if strict { "object:decode-strict" } else { "object:decode-relaxed" };
+        k.evals += 1;
+        let decoded = if (index + strict as u64) % 2 == 0 {
+            catch(|| Manifest::decode(Bytes::copy_from_slice(&signed), strict).map_err(|e| e.to_string()))
+        } else {
+            catch(|| Manifest::decode(signed.as_slice(), strict).map_err(|e| e.to_string()))
+        };
+        let m = match decoded {
+            Ok(Ok(m)) => m,
+            Ok(Err(e)) => {
+                ctx.obs(&format!("{path}:rejected"), 1);
+                ctx.obs(&format!("lib-error:{}", error_key(&e)), 1);
+                match names {
+                    NameVerdict::Bad(why) if other.is_none() => {
+                        ctx.obs(&format!("object:rejected-for-name:{why}"), 1);
+                        ctx.sig(&format!("obj path={path} rel={}@{} rejected-name={why} n={n_class}", spec.rel, spec.pos));
+                    }
+                    _ if model_valid && variant == "plain" => {
+                        ctx.obs("object:model-valid-but-rejected", 1);
+                        ctx.sample("observation:object-valid-but-rejected", || json!({"path": path, "library_error": error_key(&e), "object": c.object}));
+                    }
+                    _ => {}
+                }
+                continue;
+            }
+            Err(p) => {
+                ctx.obs("decode_panicked", 1);
+                let note = format!("C14: Manifest::decode panicked at {} (not a C14 verdict; see C04)", panic_location(&p));
+                if !ctx.notes.contains(&note) {
+                    ctx.notes.push(note);
+                }
+                continue;
+            }
+        };
+        oc.decoded += 1;
+        ctx.obs(&format!("{path}:accepted"), 1);
+        ctx.sig(&format!("obj path={path} rel={}@{} accepted n={n_class} cms={variant}", spec.rel, spec.pos));
+        check_content_ext(ctx, k, m.content(), &c, &econtent, path, true, &extra, 3);
+        if strict {
+            ctx.sample(if spec.planted.is_empty() { "object:no-related-name" } else { "object:names-related-to-the-object" }, || {
+                json!({
+                    "path": path,
+                    "relation": spec.rel,
+                    "planted_names": spec.planted,
+                    "position": spec.pos,
+                    "ee_signed_object_uri": spec.mft_uri,
+                    "ee_crl_uri": spec.crl_uri,
+                    "ee_ca_issuer_uri": spec.aia_uri,
+                    "entries_encoded": c.entries.len(),
+                    "len": m.content().len(),
+                    "iter_count": m.content().iter().count(),
+                })
+            });
+        }
+        let limit = c.entries.len() + m.content().len() + 8;
+        let Some(before) = snap(m.content(), limit) else { continue };
+
+        // ---- the other ways to the same content
+        {
+            use std::borrow::Borrow;
+            let by_deref: &ManifestContent = &m;
+            check_light(ctx, k, by_deref, &c, &econtent, "object:view-deref");
+            let by_as_ref: &ManifestContent = m.as_ref();
+            check_light(ctx, k, by_as_ref, &c, &econtent, "object:view-as-ref");
+            let by_borrow: &ManifestContent = m.borrow();
+            check_light(ctx, k, by_borrow, &c, &econtent, "object:view-borrow");
+            let cloned = m.clone();
+            check_light(ctx, k, cloned.content(), &c, &econtent, "object:view-clone");
+            let content_clone = m.content().clone();
+            check_light(ctx, k, &content_clone, &c, &econtent, "object:view-content-clone");
+            ctx.obs("object:views-checked", 5);
+        }
+
+        // ---- re-encoded and decoded again
+        if let Ok(cap) = catch(|| m.to_captured().into_bytes()) {
+            k.evals += 1;
+            match catch(|| Manifest::decode(cap.clone(), strict).map_err(|e| e.to_string())) {
+                Ok(Ok(m2)) => {
+                    ctx.obs("object:recaptured:accepted", 1);
+                    check_content_ext(ctx, k, m2.content(), &c, &econtent, "object:recaptured", true, &extra, 1);
+                }
+                Ok(Err(e)) => ctx.obs(&format!("object:recaptured:rejected:{}", error_key(&e)), 1),
+                Err(_) => ctx.obs("decode_panicked", 1),
+            }
+        }
+        if let Ok(cap) = catch(|| m.content().encode_ref().to_captured(Mode::Der).into_bytes()) {
+            k.evals += 1;
+            match decode_content(Mode::Der, cap.as_ref(), true) {
+                Decoded::Ok(c3) => {
+                    ctx.obs("object:content-reencoded:accepted", 1);
+                    check_light(ctx, k, &c3, &c, &econtent, "object:content-reencoded");
+                }
+                Decoded::Rejected(e) => ctx.obs(&format!("object:content-reencoded:rejected:{}", error_key(&e)), 1),
+                Decoded::Panicked(_) => ctx.obs("decode_panicked", 1),
+            }
+        }
+
+        // ---- serde round trips (the deserialiser decodes strictly)
+        if strict {
+            for (hi, hr) in [true, false].into_iter().enumerate() {
+                let tok = match catch(|| serde_tok::to_tok(&m, hr)) {
+                    Ok(Ok(t)) => t,
+                    _ => {
+                        ctx.obs("object:serde:serialise-failed", 1);
+                        continue;
+                    }
+                };
+                let all = serde_tok::De::all(hr);
+                for j in 0..2usize {
+                    let cfg = all[(index as usize + 3 * j + hi) % all.len()];
+                    k.evals += 1;
+                    match catch(|| serde_tok::from_tok::<Manifest>(&tok, cfg).map_err(|e| e.to_string())) {
+                        Ok(Ok(m2)) => {
+                            oc.serde_round_trips += 1;
+                            ctx.obs("object:serde:accepted", 1);
+                            ctx.sig(&format!("obj path=serde transport={} rel={}@{} n={n_class}", cfg.describe(), spec.rel, spec.pos));
+                            check_content_ext(ctx, k, m2.content(), &c, &econtent, "object:serde", true, &extra, 1);
+                        }
+                        Ok(Err(e)) => ctx.obs(&format!("object:serde:rejected:{}", error_key(&e)), 1),
+                        Err(_) => ctx.obs("object:serde:panicked", 1),
+                    }
+                }
+            }
+            k.evals += 1;
+            match catch(|| serde_json::to_string(&m).map_err(|e| e.to_string()).and_then(|t| serde_json::from_str::<Manifest>(&t).map_err(|e| e.to_string()))) {
+                Ok(Ok(m2)) => {
+                    oc.serde_round_trips += 1;
+                    ctx.obs("object:serde-json:accepted", 1);
+                    check_content_ext(ctx, k, m2.content(), &c, &econtent, "object:serde-json", true, &extra, 1);
+                }
+                Ok(Err(e)) => ctx.obs(&format!("object:serde-json:rejected:{}", error_key(&e)), 1),
+                Err(_) => ctx.obs("object:serde:panicked", 1),
+            }
+        }
+
+        // ---- validation under the issuing CA: the content that is handed back
+        let ta = if strict { &cms.ta_strict } else { &cms.ta };
+        if let Some(ta) = ta {
+            let vpath = if strict { "object:validated-strict" } else { "object:validated-relaxed" };
+            for (now_ts, now_label) in &spec.nows {
+                k.evals += 1;
+                let now = time_of(*now_ts);
+                match catch(|| m.clone().validate_at(ta, strict, now).map_err(|e| e.to_string())) {
+                    Ok(Ok((_cert, returned))) => {
+                        after_validation(ctx, k, oc, &c, &spec, &econtent, &extra, &before, &returned, vpath, now_label, &iso(*now_ts));
+                    }
+                    Ok(Err(e)) => ctx.obs(&format!("object:validation-failed:{}", error_key(&e)), 1),
+                    Err(p) => {
+                        let mut d = case_detail(&c, &econtent, vpath);
+                        d["validated_at"] = json!(iso(*now_ts));
+                        ctx.violation(&format!("C14:panic:validate_at:{}", panic_location(&p)), &format!("Manifest::validate_at panicked: {p}"), d);
+                    }
+                }
+            }
+            if spec.wall_clock {
+                // the entry points that read the clock themselves; when the clock is
+                // outside 2024..2124 they refuse and nothing is observed
+                k.evals += 1;
+                match catch(|| m.clone().validate(ta, strict).map_err(|e| e.to_string())) {
+                    Ok(Ok((_cert, returned))) => {
+                        oc.validated_wall_clock += 1;
+                        after_validation(ctx, k, oc, &c, &spec, &econtent, &extra, &before, &returned, "object:validated-wall-clock", "wall-clock", "the wall clock");
+                    }
+                    Ok(Err(e)) => ctx.obs(&format!("object:validation-wall-clock-failed:{}", error_key(&e)), 1),
+                    Err(p) => {
+                        ctx.violation(&format!("C14:panic:validate:{}", panic_location(&p)), &format!("Manifest::validate panicked: {p}"), case_detail(&c, &econtent, "object:validated-wall-clock"));
+                    }
+                }
+            }
+        }
+
+        // ---- the generic signed object: its content, and what `process` hands back
+        if (index + strict as u64) % 2 == 0 {
+            k.evals += 1;
+            let so = catch(|| SignedObject::decode(Bytes::copy_from_slice(&signed), strict).map_err(|e| e.to_string()));
+            if let Ok(Ok(so)) = so {
+                match catch(|| so.decode_content(|cons| ManifestContent::take_from(cons)).map_err(|e| e.to_string())) {
+                    Ok(Ok(c4)) => {
+                        ctx.obs("object:sigobj-content:accepted", 1);
+                        check_content_ext(ctx, k, &c4, &c, &econtent, "object:sigobj-content", true, &extra, 1);
+                    }
+                    Ok(Err(e)) => ctx.obs(&format!("object:sigobj-content:rejected:{}", error_key(&e)), 1),
+                    Err(_) => ctx.obs("decode_panicked", 1),
+                }
+                if let (true, Some(ta)) = (spec.wall_clock, ta) {
+                    k.evals += 1;
+                    match catch(|| so.clone().process(ta, strict, |_| Ok(())).map_err(|e| e.to_string())) {
+                        Ok(Ok((_cert, bytes))) => match decode_content(Mode::Der, bytes.as_ref(), true) {
+                            Decoded::Ok(c5) => {
+                                ctx.obs("object:sigobj-process:accepted", 1);
+                                check_content_ext(ctx, k, &c5, &c, &econtent, "object:sigobj-process", true, &extra, 1);
+                            }
+                            Decoded::Rejected(e) => ctx.obs(&format!("object:sigobj-process:content-rejected:{}", error_key(&e)), 1),
+                            Decoded::Panicked(_) => ctx.obs("decode_panicked", 1),
+                        },
+                        Ok(Err(e)) => ctx.obs(&format!("object:sigobj-process-failed:{}", error_key(&e)), 1),
+                        Err(_) => ctx.obs("object:sigobj-process-panicked", 1),
+                    }
+                }
+            } else {
+                ctx.obs("object:sigobj:rejected", 1);
+            }
+        }
+    }
+}
+
+fn run_object_workload(ctx: &mut Ctx, k: &mut Counters, cms: &Cms) {
+    let total = ctx.stage_budget((6_400, 160_000), if ctx.tier == Tier::Thorough { 8_000 } else { 800 }, 0, 0);
+    let mut rng = ctx.rng("object");
+    let mut oc = ObjCounters { cases: 0, decoded: 0, validated: 0, validated_wall_clock: 0, serde_round_trips: 0 };
+    for i in 0..total {
+        run_object_case(ctx, k, &mut oc, cms, &mut rng, i);
+    }
+    ctx.obs("object:decoded_manifests", oc.decoded);
+    ctx.obs("object:contents_returned_by_validation", oc.validated);
+    ctx.obs("object:contents_returned_by_validate_wall_clock", oc.validated_wall_clock);
+    ctx.obs("object:serde_round_trips", oc.serde_round_trips);
+    if oc.cases > 0 && oc.validated == 0 {
+        ctx.notes.push("C14: no manifest of the object workload validated in this shard; the content handed back by validation was not observed".into());
+    }
+    if oc.cases > 0 && oc.validated_wall_clock == 0 {
+        ctx.notes.push("C14: Manifest::validate (reading the clock) accepted nothing in this shard (clock outside 2024..2124?); only validate_at was observed".into());
+    }
+}
+
 //------------ the run -------------------------------------------------------
 
 enum Decoded {
@@ -1521,7 +2463,8 @@ fn book(ctx: &mut Ctx, c: &Case, path: &str, names: NameVerdict, other: &Option<
         }
         ctx.sig(&format!("mft path={path} plan={} focus={}@{} accepted n={n} hash={hclass} time={}", c.plan, c.focus, c.focus_pos, c.time_order));
         if names == NameVerdict::Ok {
-            ctx.sample(&format!("accepted:{path}"), || json!({"entries": c.entries.len(), "first_name": c.entries.first().map(|e| String::from_utf8_lossy(&e.name).to_string()), "focus": c.focus, "this_update": c.this_update.text(), "next_update": c.next_update.text()}));
+            // (two kinds only: the evidence keeps the first 24 samples in the order of their kinds)
+            ctx.sample(if path.starts_with("signed") { "accepted:signed" } else { "accepted:content" }, || json!({"path": path, "entries": c.entries.len(), "first_name": c.entries.first().map(|e| String::from_utf8_lossy(&e.name).to_string()), "focus": c.focus, "this_update": c.this_update.text(), "next_update": c.next_update.text()}));
         }
     } else {
         ctx.obs(&format!("{path}:rejected"), 1);
@@ -1657,6 +2600,10 @@ pub fn run(ctx: &mut Ctx) {
                 }
             }
         }
+    }
+    // ---- names related to the object itself, content handed back by validation
+    if let Some(cms) = &cms {
+        run_object_workload(ctx, &mut k, cms);
     }
     // ---- ManifestHash::verify on directly constructed hashes
     if sha_ok {
